@@ -412,6 +412,21 @@ pub fn run(tier: Tier) -> i32 {
                         Ok(x) if x == *l => {}
                         _ => ok = false,
                     }
+                    // the listed length in every unit the accessor can be asked for (by name), and without a unit (metres)
+                    match b.graph_edge_distance(i, None) {
+                        Ok(x) if x == *l => {}
+                        _ => ok = false,
+                    }
+                    for u in crate::refmodel::units::DISTANCE_UNITS.iter() {
+                        let want = *l / crate::refmodel::units::distance_m(u);
+                        match b.graph_edge_distance(i, Some(u.to_string())) {
+                            Ok(x) if crate::engine::close(x, want, 1e-3) => {}
+                            other => {
+                                ok = false;
+                                let _ = other;
+                            }
+                        }
+                    }
                 }
                 for v in 0..net.n {
                     let mut o = b.graph_get_out_edge_ids(v);
